@@ -273,22 +273,22 @@ func bvRun(c *bvCase) string {
 	}()
 	if c.Fault.Kind == "cancelend" {
 		// every transaction has been handed over and handled; the download is cancelled before the stream ends
-		target := len(arriving)
-		if c.Count < target {
-			target = c.Count // the handler takes no more than the announced number of transactions
+		// the specification says how many transactions the handler hands to the processor before it stops taking
+		// the stream (all of them, or fewer when it fails on one and only drains the rest): the cancel is issued
+		// when that many have been handled.  An implementation that hands over fewer is waited for (3 s) and then
+		// fails the comparison of the sink calls.
+		target := 0
+		for _, call := range c.Calls {
+			if call.Op == "process" {
+				target++
+			}
 		}
-		lastN, lastChange := -1, time.Now()
 		for d := time.Now().Add(3 * time.Second); time.Now().Before(d); {
 			rec.mu.Lock()
 			n := rec.procN
 			rec.mu.Unlock()
 			if n >= target || atomic.LoadInt32(&returned) == 1 {
-				break // everything handled - or the handler gave up on the stream before its end
-			}
-			if n != lastN {
-				lastN, lastChange = n, time.Now()
-			} else if time.Since(lastChange) > 40*time.Millisecond {
-				break // it is not going to take more of this stream
+				break
 			}
 			time.Sleep(50 * time.Microsecond)
 		}
